@@ -295,12 +295,27 @@ def run(tier, t0):
     joined_by_index(res, prog)
     no_ambient(res, prog)
     cache_key_complete(res, prog)
+    # C13.6 no per-thread state survives from one report to the next (shared with C15.3b)
+    from . import C15
+    C15.pointer_width_context(res, prog, prog.crate('minidump_processor'), 'C13.6')
+    # ... and that thread-local is the only one the processing crates touch
+    for cn in SCOPE:
+        for f in prog.crate(cn).fns:
+            if f.mac and f.mac.startswith('derive('):
+                continue
+            for b, t in f.calls():
+                n = f.callee(t) or ''
+                if re.search(r'thread::(local::)?LocalKey::(with|try_with|set|get|take|replace|with_borrow|with_borrow_mut)$', n) and not is_log_term(t) and not any('tracing' in m or 'log' in m for m in mac_chain(t)):
+                    res.rule('C13.6', 1)
+                    tgt = show(f.expand(f.call_tree(t)))
+                    if 'process_state::SERIALIZATION_CONTEXT' not in tgt:
+                        res.violation('C13.6', 'C13.6|thread-local|%s' % f.qual, f, t.get('line'), 'thread-local state other than the print context is used in processing code: %s' % tgt[:140])
     res.assumptions += [
         'serde_json::Map is a BTreeMap (feature preserve_order is not enabled): object key order is deterministic',
         'BTreeMap/BTreeSet/Vec/slice iteration is deterministic; HashMap/HashSet iteration order is arbitrary per process',
         'writes to PendingProcessorStats (processor-stats lock) feed only the interactive progress UI, never ProcessState',
     ]
-    return harness.finish(res, tier, t0, distinct=5, explanation=(
+    return harness.finish(res, tier, t0, distinct=6, explanation=(
         'Order lint over MIR: every call that observes HashMap/HashSet iteration order in the processing crates is followed through iterator adaptors to its consumer, which must be '
         'order-insensitive (another hash/BTree collection, a sort, any/all/count/min/max) or reviewed; every mutation of Mutex-protected state shared by the concurrently polled futures must be '
         'commutative or keyed injectively; per-thread results must be joined positionally; no clock / RNG / thread identity / address-derived value in processing code. These are necessary and, for the '
